@@ -23,7 +23,10 @@ log = os.path.join(root, "log.txt")
 try:
     import unwind
     kani.KANI_TARGET = target
-    uw = unwind.resolve(repo, harnesses, OB.LONG_LOOPS, log, stubbing=stubbing)
+    import json as _json
+    _ll = dict(OB.LONG_LOOPS)
+    _ll.update(_json.loads(os.environ.get('EXTRA_UNWIND', '{}')))
+    uw = unwind.resolve(repo, harnesses, _ll, log, stubbing=stubbing)
     res, meta = kani.run_group(repo, harnesses, 10, uw, stubbing=stubbing, timeout_s=timeout, jobs=len(harnesses),
                                log_path=log, target_dir=target)
     for name, e in res.items():
